@@ -753,13 +753,28 @@ class Evaluator:
 
     def _opt_map_as_match(self, sc, depth):
         if sc.k == "call" and len(sc.a) == 3 and sc.a[2].k in ("closure", "fnitem") and sc.a[0] == "core::option::Option::<T>::map":
-            o, f = sc.a[1], sc.a[2]
-            some = {"k": "Variant", "adt": "core::option::Option", "variant": "Some", "nfields": 1, "fields": [], "ty": ""}
-            none = {"k": "Variant", "adt": "core::option::Option", "variant": "None", "nfields": 0, "fields": [], "ty": ""}
-            val = self.apply(f, [self.mkproj(o, "Option::Some.0")], depth + 1)
-            return Tm("match", (o, ((some, None, Tm("adt", ("core::option::Option", "Some", (("0", val),)))),
-                                    (none, None, Tm("adt", ("core::option::Option", "None", ()))))), sc.n)
+            return self._opt_map_term(sc.a[1], sc.a[2], depth, sc.n, 0)
         return None
+
+    def _opt_map_term(self, o, f, depth, n, lvl):
+        """the term `o.map(f)` with the map pushed into o's own structure (conditionals, known Some/None, nested maps)"""
+        mkS = lambda v: Tm("adt", ("core::option::Option", "Some", (("0", v),)))
+        NONE = Tm("adt", ("core::option::Option", "None", ()))
+        if lvl < 5:
+            if o.k == "call" and len(o.a) == 3 and o.a[2].k in ("closure", "fnitem") and o.a[0] == "core::option::Option::<T>::map":
+                return self._opt_map_term(self._opt_map_term(o.a[1], o.a[2], depth, o.n, lvl + 1), f, depth, n, lvl + 1)
+            if o.k == "match":
+                return Tm("match", (o.a[0], tuple((p_, g_, self._opt_map_term(b_, f, depth, n, lvl + 1)) for p_, g_, b_ in o.a[1])), o.n)
+            if o.k == "if":
+                return Tm("if", (o.a[0], self._opt_map_term(o.a[1], f, depth, n, lvl + 1), self._opt_map_term(o.a[2], f, depth, n, lvl + 1)), o.n)
+            if o.k == "adt" and o.a[0] == "core::option::Option" and o.a[1] == "None":
+                return NONE
+            if o.k == "adt" and o.a[0] == "core::option::Option" and o.a[1] == "Some" and len(o.a[2]) == 1:
+                return mkS(self.apply(f, [o.a[2][0][1]], depth + 1))
+        some = {"k": "Variant", "adt": "core::option::Option", "variant": "Some", "nfields": 1, "fields": [], "ty": ""}
+        none = {"k": "Variant", "adt": "core::option::Option", "variant": "None", "nfields": 0, "fields": [], "ty": ""}
+        val = self.apply(f, [self.mkproj(o, "Option::Some.0")], depth + 1)
+        return Tm("match", (o, ((some, None, mkS(val)), (none, None, NONE))), n)
 
     def _match_over(self, sc, e, st, depth, lvl):
         """the match `e` evaluated on scrutinee term sc, pushed into sc's own branches; None = nothing to push"""
